@@ -114,6 +114,20 @@
 #endif
 
 // - - - - - - - - - - - - - - - - - - - - - - - - - - - - - - - - - - - - - - -
+
+#ifdef FFSM2_VERIF
+	// verification hook (off unless FFSM2_VERIF is defined): an index outside a fixed-size container is reported
+	// to a handler supplied by the verification harness, which sanitizers cannot see inside an object
+	extern "C" void ffsm2VerifOutOfBounds(const char* where, unsigned long index, unsigned long bound) noexcept;
+
+	#define FFSM2_VERIF_INDEX(i, n)													\
+		(static_cast<unsigned long>(i) < static_cast<unsigned long>(n) ? (void) 0 :	\
+		 ffsm2VerifOutOfBounds(__func__, static_cast<unsigned long>(i), static_cast<unsigned long>(n)))
+#else
+	#define FFSM2_VERIF_INDEX(i, n)										  ((void) 0)
+#endif
+
+// - - - - - - - - - - - - - - - - - - - - - - - - - - - - - - - - - - - - - - -
 ////////////////////////////////////////////////////////////////////////////////
 
 #ifdef FFSM2_ENABLE_ALL
